@@ -29,6 +29,9 @@
 #include <sys/stat.h>
 #include <sys/time.h>
 #include <sys/resource.h>
+#ifdef VH_ASAN
+# include <sanitizer/lsan_interface.h>
+#endif
 
 struct spifconf_verif {
     unsigned int ctx_idx, ctx_cnt;
@@ -49,8 +52,10 @@ static char invbuf[256];
 static int inited;
 
 static void calls_reset(void) {
+#ifndef CONF_WRAP
     size_t i;
     for (i = 0; i < ncalls; i++) free(calls[i].t);
+#endif
     ncalls = 0;
 }
 static void check_caps(const char *where) {
@@ -65,6 +70,13 @@ static void check_caps(const char *where) {
 }
 static void *record(int h, char *buff, void *state) {
     call_t *c;
+#ifdef CONF_WRAP
+    /* the C11 driver only counts deliveries (and must not allocate between init and free: heap balance is measured) */
+    ncalls++;
+    if (buff[0] != SPIFCONF_BEGIN_CHAR && buff[0] != SPIFCONF_END_CHAR && !strcmp(buff, "skipme")) file_skip_to_end();
+    check_caps("handler");
+    return (void *) (uintptr_t) (++token);
+#endif
     if (ncalls == capcalls) { capcalls = capcalls ? capcalls * 2 : 256; calls = (call_t *) realloc(calls, capcalls * sizeof(call_t)); }
     c = &calls[ncalls++];
     c->h = h; c->si = (unsigned long) (uintptr_t) state; c->so = ++token; c->x = 0; c->t = NULL; c->tn = 0;
@@ -101,20 +113,19 @@ static ctx_handler_t handlers[] = {
 static spif_charptr_t bi_word(spif_charptr_t param) { (void) param; return (spif_charptr_t) strdup("w"); }
 
 /* ---- spawn / temp-file observation (C11 build) -------------------------------------------------- */
-typedef struct { char *s; } ev_t;
+typedef struct { char s[48]; } ev_t;
 static ev_t spawns[64]; static int nspawn;
 static struct { unsigned mode; int fresh; } temps[64]; static int ntemp;
-static char *seen_names[4096]; static int nseen;
+static char seen_names[4096][40]; static int nseen;       /* tails of the temp-file names seen so far (no heap use) */
 static void log_spawn(const char *kind, const char *cmd) {
-    char b[600];
-    snprintf(b, sizeof(b), "%s:%s", kind, cmd ? cmd : "");
-    if (nspawn < 64) spawns[nspawn].s = strdup(b);
+    if (nspawn < 64) snprintf(spawns[nspawn].s, sizeof(spawns[nspawn].s), "%s:%s", kind, cmd ? cmd : "");
     nspawn++;
 }
 static int name_fresh(const char *name) {
-    int i;
-    for (i = 0; i < nseen; i++) if (!strcmp(seen_names[i], name)) return 0;
-    if (nseen < 4096) seen_names[nseen++] = strdup(name);
+    int i; size_t n = strlen(name);
+    const char *tail = n > 39 ? name + n - 39 : name;
+    for (i = 0; i < nseen; i++) if (!strcmp(seen_names[i], tail)) return 0;
+    if (nseen < 4096) strcpy(seen_names[nseen++], tail);
     return 1;
 }
 #ifdef CONF_WRAP
@@ -154,6 +165,13 @@ static void cpu_watch(int secs) { (void) secs; }
 static char topdir[PATH_MAX], workdir[PATH_MAX];
 static size_t heap_at_init;
 
+/* fills 64 kB of stack below the caller with a non-zero pattern so that uninitialised locals of the library are
+ * not accidentally zero (or accidentally a previous magic line) */
+static void __attribute__((noinline)) dirty_stack(unsigned char pat) {
+    volatile unsigned char a[65536];
+    memset((void *) a, pat, sizeof(a));
+    __asm__ volatile("" : : "r"(a) : "memory");
+}
 static int count_fds(void) {
     DIR *d = opendir("/proc/self/fd"); struct dirent *e; int n = 0;
     if (!d) return -1;
@@ -217,13 +235,16 @@ static void sb_events(vh_sb *state) {
     sb_puts(state, "],temp=[");
     for (i = 0; i < ntemp && i < 64; i++) { if (i) sb_putc(state, ','); sb_printf(state, "[%u,%c]", temps[i].mode, temps[i].fresh ? 'T' : 'F'); }
     sb_puts(state, "]");
-    for (i = 0; i < nspawn && i < 64; i++) free(spawns[i].s);
     nspawn = ntemp = 0;
 }
 
 /* one private directory per process; the files and directories a script creates are removed at its end */
-static char *made[4096]; static int nmade;
-static void made_add(const char *name) { if (nmade < 4096) made[nmade++] = strdup(name); }
+static char madepool[1 << 20]; static size_t madeused;
+static char *made[8192]; static int nmade;
+static void made_add(const char *name) {
+    size_t n = strlen(name) + 1;
+    if (nmade < 8192 && madeused + n <= sizeof(madepool)) { made[nmade] = madepool + madeused; memcpy(made[nmade++], name, n); madeused += n; }
+}
 static void cleanup_workdir(void) { if (workdir[0] && !chdir(topdir)) rm_rf(workdir); }
 static void vh_begin(void) {
     if (!topdir[0]) {
@@ -244,8 +265,8 @@ static void vh_end(void) {
     while (nmade > 0) {
         char *n = made[--nmade];
         if (unlink(n)) rm_rf(n);
-        free(n);
     }
+    madeused = 0;
 }
 
 static const char *vh_step(const vh_step_t *st, vh_sb *ret, vh_sb *state) {
@@ -263,6 +284,13 @@ static const char *vh_step(const vh_step_t *st, vh_sb *ret, vh_sb *state) {
         spifconf_free_subsystem();
         inited = 0;
         sb_int(ret, (long) vh_heap() - (long) heap_at_init);
+#ifdef VH_ASAN
+        if (getenv("VH_LEAKCHECK") && vh_heap() != heap_at_init) {       /* second pass of the C11 check: who allocated what was left */
+            fprintf(stderr, "LEAKCHECK %ld\n", vh_cur_sid);
+            __lsan_do_recoverable_leak_check();
+            fprintf(stderr, "LEAKCHECK-END %ld\n", vh_cur_sid);
+        }
+#endif
 #ifdef CONF_WRAP
         sb_reset(state); sb_snap(state);
 #endif
@@ -289,11 +317,17 @@ static const char *vh_step(const vh_step_t *st, vh_sb *ret, vh_sb *state) {
         if (h < 0 || h >= NHANDLERS) return "bad-handler-number";
         sb_int(ret, (long) spifconf_register_context((spif_charptr_t) name, handlers[h]));
         free(name);
+#ifdef CONF_WRAP
+        sb_reset(state); sb_snap(state);
+#endif
         check_caps("register_context");
     } else if (!strcmp(op, "regbi")) {
         char *name = argstr(st->args[0]);
         sb_int(ret, (long) spifconf_register_builtin(name, bi_word));
         free(name);
+#ifdef CONF_WRAP
+        sb_reset(state); sb_snap(state);
+#endif
         check_caps("register_builtin");
     } else if (!strcmp(op, "parse")) {
         char *name = argstr(st->args[0]);
@@ -301,6 +335,7 @@ static const char *vh_step(const vh_step_t *st, vh_sb *ret, vh_sb *state) {
         int fd0 = count_fds(), fd1; size_t i;
         spif_charptr_t r;
         calls_reset();
+        dirty_stack(0xAA);
         cpu_watch(5);
         r = spifconf_parse((spif_charptr_t) name, (spif_charptr_t) dir, (spif_charptr_t) path);
         cpu_watch(0);
@@ -336,11 +371,12 @@ static const char *vh_step(const vh_step_t *st, vh_sb *ret, vh_sb *state) {
         int fd0 = count_fds(), fd1;
         if (n >= CONFIG_BUFF) n = CONFIG_BUFF - 1;
         memcpy(buf, data, n); buf[n] = 0;
+        dirty_stack(0xAA);
         cpu_watch(5);
         r = spifconf_shell_expand((spif_charptr_t) buf);
         cpu_watch(0);
         fd1 = count_fds();
-        sb_cstr(ret, (const char *) r);
+        if (r) sb_int(ret, (long) strlen((const char *) r)); else sb_putc(ret, '-');     /* length only: keeps the token small */
         sb_reset(state);
         sb_printf(state, "{fds=%d,ncalls=0,snap=", fd1 - fd0);
         sb_snap(state);
@@ -350,6 +386,7 @@ static const char *vh_step(const vh_step_t *st, vh_sb *ret, vh_sb *state) {
     } else if (!strcmp(op, "find")) {
         char *file = argstr(st->args[0]), *dir = argstr(st->args[1]), *path = argstr(st->args[2]);
         spif_charptr_t r;
+        dirty_stack(0xAA);
         cpu_watch(5);
         r = spifconf_find_file((spif_charptr_t) file, (spif_charptr_t) dir, (spif_charptr_t) path);
         cpu_watch(0);
@@ -372,8 +409,13 @@ static const char *vh_step(const vh_step_t *st, vh_sb *ret, vh_sb *state) {
             snprintf(link, sizeof(link), "/proc/self/fd/%d", fd);
             k = readlink(link, path, sizeof(path) - 1);
             path[k > 0 ? k : 0] = 0;
-            /* the name handed back is the (possibly truncated) path of the file */
-            inbuf = !strncmp(path, buf, strlen(buf)) && (strlen(buf) == strlen(path) || strlen(buf) == (size_t) len - 1);
+            /* the name handed back is the path of the file (if the caller's buffer was too small it is a truncated copy, which
+             * cannot be checked beyond being terminated inside the buffer - ASan watches the bytes behind it) */
+            {
+                struct stat nst;
+                if (strlen(buf) < (size_t) len - 1) inbuf = (!stat(buf, &nst) && nst.st_ino == sst.st_ino && nst.st_dev == sst.st_dev);
+                else inbuf = 1;
+            }
             created_here = (sst.st_size == 0 && sst.st_nlink == 1);
 #ifdef CONF_WRAP
             sb_printf(state, "{created=%c,inbuf=%c,mode=%u,fresh=%c}", created_here ? 'T' : 'F', inbuf ? 'T' : 'F', mode, temps[ntemp > 0 ? (ntemp - 1) % 64 : 0].fresh ? 'T' : 'F');
@@ -394,6 +436,9 @@ static const char *vh_step(const vh_step_t *st, vh_sb *ret, vh_sb *state) {
 int main(int argc, char **argv) {
     if (argc < 2) { fprintf(stderr, "usage: %s <scripts> [first]\n", argv[0]); return 2; }
     DEBUG_LEVEL = 0;
+#ifdef CONF_WRAP
+    { struct rlimit rl; rl.rlim_cur = rl.rlim_max = 600; setrlimit(RLIMIT_NOFILE, &rl); }   /* runaway %include recursion ends soon */
+#endif
     vh_check_heap = 0;        /* heap balance is judged per init..free cycle (C11), not per script */
     return vh_main(argc, argv, 1);
 }
